@@ -3,6 +3,7 @@
 Anything this module does not know how to print raises TypeError: the
 correspondence is then reported as broken, never silently skipped.
 """
+import own_lookup
 import math
 import struct
 
@@ -14,12 +15,22 @@ def _types():
     return T
 
 
+def _width(t, letter):
+    """The width a numeric type object carries in its NAME (u13, i64), read here independently of the code under test
+    (NumericType.get_length is part of what the checks decide)."""
+    import re
+    m = re.fullmatch(letter + r"(\d+)", str(getattr(t, "name", "")))
+    if not m:
+        raise TypeError(f"to_coq.sty: numeric type with name {getattr(t, 'name', None)!r}")
+    return int(m.group(1))
+
+
 def sty(t):
     T = _types()
     if type(t) is T.UnsignedType:
-        return f"(SU {cnat(t.get_length())})"
+        return f"(SU {cnat(_width(t, 'u'))})"
     if type(t) is T.SignedType:
-        return f"(SI {cnat(t.get_length())})"
+        return f"(SI {cnat(_width(t, 'i'))})"
     if type(t) is T.FloatType:
         return "SF32"
     if type(t) is T.DoubleType:
@@ -93,7 +104,7 @@ def value(fcp, t, v):
 
 
 def struct_value(fcp, name, d):
-    s = fcp.get_struct(name).unwrap()
+    s = own_lookup.struct(fcp, name)
     if not isinstance(d, dict) or set(d.keys()) != {f.name for f in s.fields}:
         raise TypeError(f"struct_value: dict keys {list(d) if isinstance(d, dict) else d!r} do not match struct {name}")
     return "(VStruct %s)" % clist(cpair(cstr(f.name), value(fcp, f.type, d[f.name])) for f in s.fields)
@@ -124,11 +135,11 @@ F64_SPECIAL = [0, 1 << 63, 0x3FF8000000000000, 0x7FF0000000000000, 0xFFF00000000
 def gen_value(rng, fcp, t, avoid_signed_min=False, big=False):
     T = _types()
     if type(t) is T.UnsignedType:
-        n = t.get_length()
+        n = _width(t, 'u')
         c = [0, 1, 2 ** n - 1, 2 ** (n - 1), 2 ** (n - 1) - 1]
         return rng.choice(c) if rng.random() < 0.5 else rng.randrange(0, 2 ** n)
     if type(t) is T.SignedType:
-        n = t.get_length()
+        n = _width(t, 'i')
         lo, hi = -(2 ** (n - 1)), 2 ** (n - 1) - 1
         c = [lo, -1, 0, 1, hi, lo + 1]
         v = rng.choice(c) if rng.random() < 0.5 else rng.randint(lo, hi)
@@ -138,7 +149,7 @@ def gen_value(rng, fcp, t, avoid_signed_min=False, big=False):
                 v = 0
         return max(lo, min(hi, v))
     if type(t) is T.EnumType:
-        e = fcp.get_enum(t.name).unwrap()
+        e = own_lookup.enum(fcp, t.name)
         return rng.choice([x.value for x in e.enumeration])
     if type(t) is T.FloatType:
         bits = rng.choice(F32_SPECIAL) if rng.random() < 0.4 else canon_f32(rng.getrandbits(32))
@@ -166,20 +177,20 @@ def gen_value(rng, fcp, t, avoid_signed_min=False, big=False):
 
 
 def gen_struct_value(rng, fcp, name, avoid_signed_min=False, big=False):
-    s = fcp.get_struct(name).unwrap()
+    s = own_lookup.struct(fcp, name)
     return {f.name: gen_value(rng, fcp, f.type, avoid_signed_min, big) for f in s.fields}
 
 
 def contains_signed_min(fcp, t, v):
     T = _types()
     if type(t) is T.SignedType:
-        return v == -(2 ** (t.get_length() - 1))
+        return v == -(2 ** (_width(t, 'i') - 1))
     if type(t) in (T.ArrayType, T.DynamicArrayType):
         return any(contains_signed_min(fcp, t.underlying_type, x) for x in v)
     if type(t) is T.OptionalType:
         return v is not None and contains_signed_min(fcp, t.underlying_type, v)
     if type(t) is T.StructType:
-        s = fcp.get_struct(t.name).unwrap()
+        s = own_lookup.struct(fcp, t.name)
         return any(contains_signed_min(fcp, f.type, v[f.name]) for f in s.fields)
     return False
 
@@ -207,7 +218,7 @@ def _values_equal(fcp, t, a, b):
             return a is None and b is None
         return values_equal(fcp, t.underlying_type, a, b)
     if type(t) is T.StructType:
-        s = fcp.get_struct(t.name).unwrap()
+        s = own_lookup.struct(fcp, t.name)
         return isinstance(a, dict) and isinstance(b, dict) and set(a) == set(b) and all(
             values_equal(fcp, f.type, a[f.name], b[f.name]) for f in s.fields)
     return type(a) is type(b) and a == b
